@@ -521,6 +521,12 @@ def digitsVal : Str → Nat → Option Nat
   | [], acc => some acc
   | c :: cs, acc => if '0' ≤ c ∧ c ≤ '9' then digitsVal cs (acc * 10 + (c.toNat - 48)) else none
 
+/-- an optional sign: (negative?, rest) -/
+def signSplit : Str → Bool × Str
+  | '-' :: r => (true, r)
+  | '+' :: r => (false, r)
+  | r => (false, r)
+
 /-- `int(text)` for `ws* [+-]? digit+ ws*`; `none` = `ValueError`; `_` between digits and non-ASCII text
 (Unicode digits and blanks) are outside the model -/
 def pyIntDec (s : Str) : Except Err (Option Int) :=
@@ -529,14 +535,11 @@ def pyIntDec (s : Str) : Except Err (Option Int) :=
     (if s.all (fun c => c.toNat ≥ 128 || ('0' ≤ c ∧ c ≤ '9') || c = '+' || c = '-' || c = '_' || isSpaceC c)
      then .error .outOfModel else .ok none)
   else
-  let t := stripC s
-  let (neg, d) := match t with
-    | '-' :: r => (true, r)
-    | '+' :: r => (false, r)
-    | r => (false, r)
+  let sd := signSplit (stripC s)
+  let d := sd.2
   if d.isEmpty then .ok none else
   match digitsVal d 0 with
-  | some n => .ok (some (if neg then - (n : Int) else n))
+  | some n => .ok (some (if sd.1 then - (n : Int) else n))
   | none =>
     if (splitOnC '_' d).all (fun g => !g.isEmpty && g.all (fun c => '0' ≤ c ∧ c ≤ '9')) then .error .outOfModel
     else .ok none
@@ -874,6 +877,18 @@ def parseStatus : Nat → Bool → Bytes → Res (Str × Nat × Str)
           | .fail e => .fail e
           | .done _ rest' => parseStatus fuel closed rest'
 
+/-- the media type part of `Content-Type` (text before the last `;`), lower-cased; `none` when absent or empty -/
+def ctMainOf (headers : List (Str × Str)) : Option Str :=
+  match odGet headers "content-type".toList with
+  | some t => if t.isEmpty then none else
+      some (lower (if t.contains ';' then (t.reverse.dropWhile (· ≠ ';')).drop 1 |>.reverse else t))
+  | none => none
+
+def isEventStream (headers : List (Str × Str)) : Bool :=
+  match ctMainOf headers with
+  | some t => containsSubC "text/event-stream".toList t
+  | none => false
+
 /-- `Respondent.parseMessage` on the buffer `raw`; `closed` = the connection has been closed by the server -/
 def parseResponse (method : Str) (closed : Bool) (raw : Bytes) : Res Response :=
   if raw.isEmpty then .need else
@@ -899,15 +914,9 @@ def parseResponse (method : Str) (closed : Bool) (raw : Bytes) : Res Response :=
           let length : Option Nat := if chunked then none else cl
           let length := if status = 204 ∨ status = 304 ∨ (100 ≤ status ∧ status < 200) ∨ method = "HEAD".toList
             then some 0 else length
-          let ct := odGet headers "content-type".toList
-          let ctMain : Option Str := match ct with
-            | some t => if t.isEmpty then none else
-                some (lower (if t.contains ';' then (t.reverse.dropWhile (· ≠ ';')).drop 1 |>.reverse else t))
-            | none => none
-          if (match ctMain with | some t => containsSubC "text/event-stream".toList t | none => false) then
-            .fail .outOfModel       -- server sent events: C33
+          if isEventStream headers then .fail .outOfModel       -- server sent events: C33
           else
-          let jsoned := ctMain.map (containsSubC "application/json".toList)
+          let jsoned := (ctMainOf headers).map (containsSubC "application/json".toList)
           let conn := odGet headers "connection".toList
           let persisted : Bool :=
             if version = (1, 1) then
